@@ -1117,16 +1117,7 @@ def _list_decorators() -> Dict[str, Callable[[_FN], _FN]]:
                 fn(self, index, value)
             else:
                 # slice assignment requires __delitem__, insert, __len__
-                step = index.step or 1
-                start = index.start or 0
-                if start < 0:
-                    start += len(self)
-                if index.stop is not None:
-                    stop = index.stop
-                else:
-                    stop = len(self)
-                if stop < 0:
-                    stop += len(self)
+                start, stop, step = index.indices(len(self))
 
                 if step == 1:
                     if value is self:
